@@ -74,6 +74,9 @@ macro_rules! gate {
 }
 
 pub(crate) fn process<'t>(name: &'t str, regs: Vec<N>, args: Vec<R>) -> Result<'t, MultiOp> {
+    if let Some(&arg) = args.iter().find(|arg| !arg.is_finite()) {
+        return Err(Error::NonFiniteArgument(name, arg));
+    }
     match name {
         s if s.starts_with(['c', 'C']) => {
             let (&ctrl, regs) = regs.split_first().ok_or(Error::WrongRegNumber(name, 0))?;
